@@ -352,3 +352,17 @@ Theorem reachable_spec x :
 Proof. rewrite memn_In, reachable_is_result. apply reach_result_spec. Qed.
 
 End Inst.
+
+(* S : A B | c ; A : A a ; B : (empty) ; U : u   with terminals a c u (names 10 11 12), S = 20, A = 21, B = 22, U = 23:
+   A is not productive, B is nullable, U is not reachable *)
+Example flags_ex :
+  let terms := [(10, 1%Z); (11, 2%Z); (12, 3%Z)] in
+  let rules := [ {| r_lhs := 20; r_rhs := [21; 22]; r_anode := false; r_cost := 0%Z; r_transl := [] |};
+                 {| r_lhs := 20; r_rhs := [11]; r_anode := false; r_cost := 0%Z; r_transl := [] |};
+                 {| r_lhs := 21; r_rhs := [21; 10]; r_anode := false; r_cost := 0%Z; r_transl := [] |};
+                 {| r_lhs := 22; r_rhs := []; r_anode := false; r_cost := 0%Z; r_transl := [] |};
+                 {| r_lhs := 23; r_rhs := [12]; r_anode := false; r_cost := 0%Z; r_transl := [] |} ] in
+  memn 21 (productive terms rules) = false /\ memn 20 (productive terms rules) = true /\
+  memn 22 (nullable rules) = true /\ memn 20 (nullable rules) = false /\
+  memn 23 (ReadGrammar.reachable rules) = false /\ memn 22 (ReadGrammar.reachable rules) = true.
+Proof. vm_compute. auto 10. Qed.
